@@ -530,6 +530,13 @@ func (rep *Report) diagnoseDeath(pool *Pool, mk func(string, [][]uint16, bool) J
 		}
 	}
 	if !found {
+		if strings.Contains(jr.Error, "timed out") {
+			// the batch exceeded the wall-clock limit of a job, yet every history of it completes on its own: the machine
+			// is loaded (a hang of the code under test is found by the scheduler as "no enabled thread", not by this clock).
+			// What the batch would have covered is reported as not covered.
+			rep.Cap("%s: a worker exceeded its wall-clock limit (%s) on a batch of %d histories that each complete on their own (machine load); the batch was re-run history by history", sp.Name, jr.Error, len(hists))
+			return
+		}
 		rep.Infra("worker died but no single history reproduces it: %s\n%s", jr.Error, jr.Log)
 	}
 }
